@@ -207,6 +207,22 @@ theorem growth_consistent (seg : Nat → Nat → V6) : ∀ (ps : Pairs) (seen : 
         abel
       · exact hPc c t e
 
+/-- **Segments in any order.** The two hypotheses only look at which segments the kernel has, not at their order in
+the file: every kernel that can be REORDERED into a grown one (every forest of segments in which each body is the target
+of at most one segment — list the segments from the roots outwards) satisfies them, for arbitrary segment values. -/
+theorem perm_growth_consistent (seg : Nat → Nat → V6) (ps ps' : Pairs) (hperm : ps.Perm ps')
+    (hg : growthB [] ps' = true) : (∃ P : Nat → V6, Consistent ps seg P) ∧ UniqueCenter ps := by
+  obtain ⟨P, _, hP⟩ := growth_consistent seg ps' [] (fun _ => 0) hg
+  have hu := growth_uniqueCenter ps' [] hg
+  exact ⟨⟨P, fun c t h => hP c t (hperm.mem_iff.mp h)⟩,
+    fun c c' t h1 h2 => hu c c' t (hperm.mem_iff.mp h1) (hperm.mem_iff.mp h2)⟩
+
+/-- so `spk_chain` applies to the kernel as the file lists it: the satellite before its planet's barycentre -/
+example : ([(3, 301), (0, 3), (3, 399)] : Pairs).Perm [(0, 3), (3, 301), (3, 399)] ∧
+    growthB [] [(0, 3), (3, 301), (3, 399)] = true ∧ growthB [] [(3, 301), (0, 3), (3, 399)] = false := by
+  refine ⟨?_, by decide, by decide⟩
+  exact List.Perm.swap _ _ _
+
 /-! ## The kernel of the repository (regenerated from the file on every run) -/
 
 open BeyondVerif.Generated
